@@ -176,6 +176,7 @@ def vecwrite(f, string, *args, postfunc=None, pfargs=None, so=None):
 
     length = 1
     fncs = []
+    has_empty = False
     for i, arg in enumerate(args):
         if not isinstance(arg, str) and hasattr(arg, "__len__"):
             if np.ndim(arg) == 2:
@@ -187,6 +188,8 @@ def vecwrite(f, string, *args, postfunc=None, pfargs=None, so=None):
             else:
                 fncs.append(_get_itemi)
                 curlen = len(arg)
+            if curlen == 0:
+                has_empty = True
             if curlen > 1:
                 if length > 1:
                     if so is not None:
@@ -206,6 +209,9 @@ def vecwrite(f, string, *args, postfunc=None, pfargs=None, so=None):
                 length = curlen
         else:
             fncs.append(_get_scalar)
+    if has_empty and length == 1:
+        # empty vector(s) and nothing longer than 1: nothing to write
+        length = 0
     _vecwrite(f, string, length, args, fncs, postfunc, pfargs, so)
 
 
